@@ -8,7 +8,7 @@
    - Model/Scte.v: `new_scte35`, the model of scte35.NewSCTE35 (repaired code for F8 and the two loops);
    - Proofs/ScteDecode.v: `wf_fixed` = the field ranges of the fixed part only (used by the rejections, which
      must not assume a well-formed command / descriptor list). *)
-From Gots Require Import Base.Prelude Model.Pts Model.Scte Spec.Scte35Spec Proofs.ScteExpected Proofs.ScteDecode Proofs.ScteReject.
+From Gots Require Import Base.Prelude Model.Pts Model.Scte Spec.Scte35Spec Proofs.ScteExpected Proofs.ScteDecode Proofs.ScteReject Proofs.ScteWitness08.
 Import Scte Scte35Spec.
 Local Open Scope N_scope.
 
@@ -79,31 +79,17 @@ Theorem C08_reject_insert_without_time : forall s eid b, wf_fixed s -> si_table_
 Proof. exact reject_insert_no_time. Qed.
 Print Assumptions C08_reject_insert_without_time.
 
-(* ---- non-vacuity: a component-mode splice_insert with break_duration, pts_adjustment, pointer_field 2,
-   a segmentation descriptor with components (bit 32 set), 40-bit duration, MID list and sub-segment fields,
-   a cancelled descriptor and a foreign descriptor ---- *)
-Definition ex_seg : descriptor :=
-  Seg 4294967295 (Some (mksb (Some [(7, 8589934591); (8, 4294967296)]) (Some 1099511627775)
-                             (Some (true, false, true, 2)) (Multi [(9, [66; 76]); (14, [])]) 52 3 4 (Some (1, 2)))).
-Definition ex_signal : splice_info :=
-  mksi [255; 255] 252 false false 3 0 false 0 8589934591 255 2748 false
-       (Insert 305419896 (Some (mkib true (CompTimed [(1, Some 8589934591); (2, None)]) (Some (true, 8589934591)) 65535 1 2)))
-       [Foreign 1 [67; 85; 69; 73; 0]; ex_seg; Seg 5 None] [0; 0] 3735928559.
+(* ---- non-vacuity (values ex_seg, ex_signal in Proofs/ScteWitness08.v): a component-mode splice_insert with
+   break_duration, pts_adjustment, pointer_field 2, a segmentation descriptor with components (bit 32 set), 40-bit
+   duration, MID list and sub-segment fields, a cancelled descriptor and a foreign descriptor ---- *)
 Example C08_example_supported : supported ex_signal.
-Proof.
-  unfold supported, wf_decode, ex_signal, ex_seg. cbn.
-  repeat (split || constructor); cbn; try lia; try discriminate; auto.
-Qed.
+Proof. exact w08_example_supported. Qed.
 Example C08_example_decodes :
   exists sc, new_scte35 (ser_splice_info ex_signal) = Ok sc /\ length (s_descs sc) = 2%nat /\
              s_other sc = [1; 5; 67; 85; 69; 73; 0] /\ s_pts sc = 8589934591.
-Proof.
-  exists (expected ex_signal). split; [apply decode_ser, C08_example_supported|]. vm_compute. repeat split; reflexivity.
-Qed.
+Proof. exact w08_example_decodes. Qed.
 
 (* why `supported` demands pointer_field < 255: psi computes PointerField(data)+1 in uint8, so a 255-byte filler
    makes the decoder read the table id from byte 0 (cannot occur inside a 188-byte packet) *)
-Definition ptr255_section : splice_info :=
-  mksi (repeat 255 255) 252 false false 3 0 false 0 0 0 4095 false Null [] [] 0.
 Example C08_pointer_255_refuted : new_scte35 (ser_splice_info ptr255_section) = Err E.UnknownTableID.
-Proof. vm_compute. reflexivity. Qed.
+Proof. exact w08_pointer_255_refuted. Qed.
